@@ -114,6 +114,11 @@ class Misorientation(Rotation):
         M._symmetry = self._symmetry[::-1]
         return M
 
+    def __neg__(self) -> Misorientation:
+        M = super().__neg__()
+        M._symmetry = self._symmetry
+        return M
+
     def __repr__(self):
         """String representation."""
         cls = self.__class__.__name__
